@@ -50,7 +50,7 @@ def case_job(arg):
             rep.inconclusive.append("setup error: %s" % (o["impl"].get("setup_error") or o["ref"].get("setup_error"))[-300:])
             return rep
     fname = p0["fns"][fid]["name"]
-    desc = "failing function %s raising %s (%s) at %s on %s" % (fname, cls, {"text": "with a message", "none": "without arguments", "empty": "with an empty message", "multiline": "with a two-line message"}[msg], when, store)
+    desc = "failing function %s raising %s (%s) at %s on %s" % (fname, cls, {"text": "with a message", "none": "without arguments", "empty": "with an empty message", "multiline": "with a two-line message", "chained": "with an explicit cause", "while_handling": "while handling another error"}[msg], when, store)
     cz = {"case": case, "fn": fname, "cls": cls}
 
     def bad(what, mech=None):
@@ -80,6 +80,13 @@ def case_job(arg):
             bad("the exception that reached the caller is %s(%s), not the object raised by %s" % (r[1], r[2][:100], fname), "exception-not-propagated-unchanged")
         else:
             rep.count("exception_identity_confirmed")
+            # ... with what it carried when it was raised: its cause / context, as plain execution delivers them
+            if len(r) > 7 and len(rf["result"]) > 7:
+                rep.count("exception_chain_comparisons")
+                if rf["result"][7]["cause"] or rf["result"][7]["context"]:
+                    rep.count("exception_chain_comparisons_nonempty")
+                if r[7] != rf["result"][7]:
+                    bad("the exception reaches the caller with cause/context %r, plain execution delivers it with %r" % (r[7], rf["result"][7]), "exception-chain-altered")
         sigs = dict(im["all_paths"][-1]) if im.get("all_paths") else None
         if sigs is None:
             rep.inconclusive.append("signature map of the failed evaluation not observed")
@@ -381,7 +388,7 @@ def run(tier, seed):
                 when = ["end", "start"][(fi + ci) % 2]
                 store = ["local", "memory", "local_lru"][(n + ci) % 3]
                 n += 1
-                jobs.append((p0, fid, cls, when, store, n % 4 == 0, other, n % 2 == 0, ["text", "none", "text", "empty", "multiline"][(n + fi) % 5]))
+                jobs.append((p0, fid, cls, when, store, n % 4 == 0, other, n % 2 == 0, ["text", "none", "chained", "empty", "multiline", "while_handling", "text"][(n + fi) % 7]))
     rjobs = []
     for store in ("local", "memory", "local_lru"):
         for ci, cls in enumerate(("ValueError", "KeyError", "CustomError", "KeyboardInterrupt", "CustomBase")):
